@@ -1072,3 +1072,139 @@ Qed.
 
 Theorem flip_mirror_ok : forall t, mirror_ok (flip t) = mirror_ok t.
 Proof. intros t. apply (flip_mirror_ok_depth (mirror_depth t)). lia. Qed.
+
+(* ---------------------------------------------------------------------------------------------- *)
+(* Reading the theorem the other way round: a search = the mirror of the mirrored search          *)
+(* ---------------------------------------------------------------------------------------------- *)
+Lemma mirror_map_res_invol : forall e (r : res (option st)),
+  map_res (option_map (mirror_st (mirror_env e))) (map_res (option_map (mirror_st e)) r) = r.
+Proof.
+  intros e r. destruct r as [[s|]| | |]; cbn [map_res option_map]; try reflexivity.
+  now rewrite mirror_st_invol.
+Qed.
+
+Theorem mirror_find_as_opposite_partial : forall e fuel root rtl start prevlen,
+  mirror_ok root = true -> 0 <= start <= tlen e ->
+  find e fuel root rtl start prevlen
+  = map_res (option_map (mirror_st (mirror_env e)))
+      (find (mirror_env e) fuel (flip root) (negb rtl) (tlen e - start) prevlen).
+Proof.
+  intros e fuel root rtl start prevlen Hr Hs.
+  rewrite mirror_find_partial by assumption. now rewrite mirror_map_res_invol.
+Qed.
+
+(* ---------------------------------------------------------------------------------------------- *)
+(* EndZ under RE2 / ECMAScript (endz_strict): there \Z is \z, whose mirror is \A                   *)
+(* ---------------------------------------------------------------------------------------------- *)
+Definition endz_anchor (a : anchor) : anchor := match a with AEndZ => AEnd | x => x end.
+
+Fixpoint endz_to_end (t : node) : node :=
+  match t with
+  | NAnchor a => NAnchor (endz_anchor a)
+  | NConcat o l => NConcat o (map endz_to_end l)
+  | NAlternate o l => NAlternate o (map endz_to_end l)
+  | NLoop lz o m n r => NLoop lz o m n (endz_to_end r)
+  | NCapture o g u r => NCapture o g u (endz_to_end r)
+  | NGroup r => NGroup (endz_to_end r)
+  | NPosLook o r => NPosLook o (endz_to_end r)
+  | NNegLook o r => NNegLook o (endz_to_end r)
+  | NAtomic r => NAtomic (endz_to_end r)
+  | NBackRefCond o g y no => NBackRefCond o g (endz_to_end y) (option_map endz_to_end no)
+  | NExprCond o c y no => NExprCond o (endz_to_end c) (endz_to_end y) (option_map endz_to_end no)
+  | x => x
+  end.
+
+Lemma mirror_bindl_ext : forall (A B : Type) (l : list A) (f g : A -> res (list B)),
+  (forall a, f a = g a) -> bindl l f = bindl l g.
+Proof.
+  intros A B l f g H. induction l as [|a l IH]; [reflexivity|]. cbn [bindl]. now rewrite H, IH.
+Qed.
+
+Lemma mirror_bindr_ext : forall (A B : Type) (r r' : res (list A)) (f g : A -> res (list B)),
+  r = r' -> (forall a, f a = g a) -> bindr r f = bindr r' g.
+Proof.
+  intros A B r r' f g -> H. unfold bindr. destruct r'; cbn [bind]; try reflexivity.
+  now apply mirror_bindl_ext.
+Qed.
+
+Lemma mirror_iter_ext : forall fuel body body' lazy limit s mark count,
+  (forall s, body s = body' s) ->
+  iter fuel body lazy limit s mark count = iter fuel body' lazy limit s mark count.
+Proof.
+  induction fuel as [|f IH]; intros body body' lazy limit s mark count H; [reflexivity|].
+  cbn [iter].
+  rewrite (mirror_bindr_ext _ _ (body s) (body' s)
+             (fun s' => iter f body lazy limit s' (pos s) (count + 1))
+             (fun s' => iter f body' lazy limit s' (pos s) (count + 1)) (H s)); [reflexivity|].
+  intros a. now apply IH.
+Qed.
+
+Section EndZ.
+Variable e : env.
+Hypothesis Hstrict : endz_strict e = true.
+
+Lemma mirror_endz_anchor_ok : forall a p, anchor_ok e (endz_anchor a) p = anchor_ok e a p.
+Proof.
+  intros a p. destruct a; try reflexivity. cbn [endz_anchor]. symmetry.
+  now apply mirror_endz_strict_is_end.
+Qed.
+
+Lemma mirror_sem_endz_to_end : forall fuel t s, sem e fuel (endz_to_end t) s = sem e fuel t s.
+Proof.
+  induction fuel as [|f IH]; intros t s; [reflexivity|].
+  destruct t; cbn [endz_to_end]; try reflexivity.
+  - (* Anchor *) cbn [sem]. now rewrite mirror_endz_anchor_ok.
+  - (* Concat *) rewrite !mirror_sem_concat_eq. revert s.
+    induction l as [|x l IHl]; intros s; [reflexivity|].
+    cbn [map seq_sem]. apply mirror_bindr_ext; [apply IH|exact IHl].
+  - (* Alternate *) rewrite !mirror_sem_alt_eq.
+    induction l as [|x l IHl]; [reflexivity|].
+    cbn [map alt_sem]. now rewrite IH, IHl.
+  - (* Loop *) cbn [sem]. destruct (m =? 0).
+    + apply mirror_iter_ext. intros s0. apply IH.
+    + apply mirror_bindr_ext; [apply IH|]. intros a. apply mirror_iter_ext. intros s0. apply IH.
+  - (* Capture *) cbn [sem]. now rewrite IH.
+  - cbn [sem]. apply IH.
+  - cbn [sem]. now rewrite IH.
+  - cbn [sem]. now rewrite IH.
+  - cbn [sem]. now rewrite IH.
+  - (* BackRefCond *) cbn [sem]. rewrite IH. destruct no as [x|]; cbn [option_map]; [now rewrite IH|reflexivity].
+  - (* ExprCond *) cbn [sem]. rewrite IH.
+    destruct (first_only (sem e f t1 s)) as [[|a l]| | |]; cbn [bind]; try reflexivity.
+    + destruct no as [x|]; cbn [option_map]; [now rewrite IH|reflexivity].
+    + apply IH.
+Qed.
+
+Lemma mirror_find_endz_to_end : forall fuel root rtl start prevlen,
+  find e fuel (endz_to_end root) rtl start prevlen = find e fuel root rtl start prevlen.
+Proof.
+  intros fuel root rtl start prevlen. unfold find.
+  destruct ((prevlen =? 0) && (start =? (if rtl then 0 else tlen e))); [reflexivity|].
+  generalize (if prevlen =? 0 then if rtl then start - 1 else start + 1 else start).
+  generalize (S (Z.to_nat (tlen e))). intros cnt.
+  induction cnt as [|c IHc]; intros p; [reflexivity|].
+  cbn [scan_from]. unfold attempt. rewrite mirror_sem_endz_to_end.
+  destruct (sem e fuel root {| pos := p; caps := [] |}) as [[|a l]| | |]; cbn [bind]; try reflexivity.
+  destruct (if rtl then p <=? 0 else tlen e <=? p); [reflexivity|]. apply IHc.
+Qed.
+
+(* mirror theorem for trees that contain EndZ, in RE2/ECMAScript mode: first read EndZ as End *)
+Theorem mirror_sem_endz_strict_partial : forall fuel t s,
+  mirror_ok (endz_to_end t) = true -> st_ok e s ->
+  sem (mirror_env e) fuel (flip (endz_to_end t)) (mirror_st e s)
+  = map_res (map (mirror_st e)) (sem e fuel t s).
+Proof.
+  intros fuel t s Ht Hs. rewrite mirror_sem_partial by assumption.
+  now rewrite mirror_sem_endz_to_end.
+Qed.
+
+Theorem mirror_find_endz_strict_partial : forall fuel root rtl start prevlen,
+  mirror_ok (endz_to_end root) = true -> 0 <= start <= tlen e ->
+  find (mirror_env e) fuel (flip (endz_to_end root)) (negb rtl) (tlen e - start) prevlen
+  = map_res (option_map (mirror_st e)) (find e fuel root rtl start prevlen).
+Proof.
+  intros fuel root rtl start prevlen Hr Hs. rewrite mirror_find_partial by assumption.
+  now rewrite mirror_find_endz_to_end.
+Qed.
+
+End EndZ.
